@@ -21,8 +21,32 @@ KNOBS = dict(p_bounds=0.4, p_constraint=0.9, p_penalty=0.2, p_vector=0.05, p_lim
              midrun_sets=('constraint', 'constraint', 'limits', 'penalty', 'termination'), max_ops=7)
 ORACLES = [oracles.ConstraintOracle]
 
-def gen_plan(seed, tier):
+def _gen_plan(seed, tier):
     return solverplan.gen_solver_plan(seed, tier, ID, KNOBS)
 
-def run_plan(plan):
+def _run_plan(plan):
     return solverplan.run_solver_plan(plan, ORACLES)
+
+
+# ---- the one-liner interfaces named by the property (fmin, fmin_powell, diffev, diffev2, lattice, buckshot)
+from .. import wrappers as _wr
+from ..env import sub_rng as _sub_rng
+P_WRAPPER = 0.1
+
+def gen_plan(seed, tier):
+    if _sub_rng(seed, 'plan.kind.wrapper').random() < P_WRAPPER:
+        return _wr.gen_wrapper_plan(seed, tier, ID, interrupts=(ID == 'C05'))
+    return _gen_plan(seed, tier)
+
+def run_plan(plan):
+    if plan.get('kind') == 'wrapper': return _wr.run_wrapper_plan(plan, (ID,))
+    return _run_plan(plan)
+
+_valid0 = valid
+_simplify0 = simplify
+def valid(plan):
+    if plan.get('kind') == 'wrapper': return True
+    return True if _valid0 is None else _valid0(plan)
+def simplify(plan):
+    if plan.get('kind') == 'wrapper': return _wr.simplify_wrapper_plan(plan)
+    return _simplify0(plan)
